@@ -44,6 +44,7 @@ func checkC05(c *Ctx, r *Report) {
 	selectorMaskedInText(c, r, "C05.R3.selector-masked")
 	emptyAlpnAccepted(c, r, "C05.R3.empty-alpn")
 	noTokenDroppedBeforeSlurp(c, r, "C05.R3.no-token-dropped")
+	parsersKeepCase(c, r, "C05.R3.parsers-keep-case")
 	gatewayTypeDecides(c, r, "C05.R3.gateway-type-decides")
 	c05R4(c, r)
 	c05R5(c, r)
